@@ -161,6 +161,28 @@ pub fn band_rel(s: u32, e: u32, p: u32, n: u32) -> BandRel {
     }
 }
 
+/// The surviving part of an interval that PARTLY overlaps the removed band [p, p+n-1], at
+/// its position after the removal (what spreadsheet applications keep).  Informational
+/// only: the statement leaves this case open.
+pub fn clip_span(s: u32, e: u32, p: u32, n: u32) -> (u32, u32) {
+    let q = p + (n - 1);
+    let ns = if s < p {
+        s
+    } else if s <= q {
+        p
+    } else {
+        s - n
+    };
+    let ne = if e < p {
+        e
+    } else if e <= q {
+        p - 1
+    } else {
+        e - n
+    };
+    (ns, ne)
+}
+
 fn ins_idx(x: u32, p: u32, n: u32) -> u32 {
     if x >= p {
         x + n
@@ -392,6 +414,32 @@ impl MSheet {
                 band_rel(s, e, p, n) == BandRel::Partial
             })
             .count()
+    }
+
+    /// (object kind, clipped rectangle) for every range object that partly overlaps the band.
+    pub fn partial_clips(&self, axis: Axis, p: u32, n: u32) -> Vec<(&'static str, Rect)> {
+        let mut out = Vec::new();
+        let mut one = |kind: &'static str, m: &MRange| {
+            if let MRange::Exact(r) = m {
+                let (s, e) = r.span(axis);
+                if band_rel(s, e, p, n) == BandRel::Partial {
+                    let (ns, ne) = clip_span(s, e, p, n);
+                    out.push((kind, r.with_span(axis, ns, ne)));
+                }
+            }
+        };
+        for m in &self.merges {
+            one("merge", m);
+        }
+        for c in &self.cfs {
+            for m in &c.ranges {
+                one("cf", m);
+            }
+        }
+        if let Some(m) = &self.filter {
+            one("filter", m);
+        }
+        out
     }
 
     pub fn insert(&mut self, axis: Axis, p: u32, n: u32) -> EditSummary {
